@@ -23,9 +23,9 @@ Proof.
   intros H. destruct (ioprio_value c d) eqn:E; [eauto|]. apply ioprio_value_none in E. contradiction.
 Qed.
 
-(* the Python layer accepts (ioclass, value) and the C shift is undefined *)
-Lemma ionice_refuted : exists ioclass value,
-  0 <= value <= 7 /\ ionice_set false 0 ioclass value = CUB "shift".
+(* legacy: the Python layer accepts (ioclass, value) and the C shift is undefined *)
+Lemma ionice_legacy_refuted : exists ioclass value,
+  0 <= value <= 7 /\ ionice_set_legacy 0 ioclass value = CUB "shift".
 Proof. exists 1048576, 0. split; [lia|]. vm_compute. reflexivity. Qed.
 
 Lemma conv_i_range v z : conv_i v = Val z -> INT_MIN <= z <= INT_MAX.
@@ -36,27 +36,50 @@ Proof.
   - intros [= <-]. unfold INT_MIN, INT_MAX. destruct b; lia.
 Qed.
 
-(* after the proposed range check no (ioclass, value) reaches the undefined shift *)
-Lemma ionice_fixed_no_ub pid ioclass value : is_ub (ionice_set true pid ioclass value) = false.
+Lemma c_ioprio_set_no_ub p c d : is_ub (c_ioprio_set_gen true p c d) = false.
 Proof.
-  unfold ionice_set.
-  destruct (negb (value =? 0) && ((ioclass =? 3) || (ioclass =? 0))); [reflexivity|].
-  destruct ((value <? 0) || (value >? 7)); [reflexivity|].
-  destruct (Z.leb_spec 0 ioclass); destruct (Z.leb_spec ioclass 3); cbn [andb negb]; try reflexivity.
-  unfold c_ioprio_set, cbind. cbn [conv_i].
-  destruct (int_ok pid); [|reflexivity]. destruct (int_ok ioclass); [|reflexivity].
-  destruct (int_ok value); [|reflexivity].
-  destruct (ioprio_defined ioclass value) as [v ->]; [change (2 ^ 18) with 262144; lia|reflexivity].
+  unfold c_ioprio_set_gen, cbind. destruct (conv_i p); try reflexivity.
+  destruct (conv_i c); try reflexivity. destruct (conv_i d); reflexivity.
 Qed.
 
-(* code as it is: the only undefined case is an ioclass outside [0, 2^18) *)
-Lemma ionice_ub_iff pid ioclass value w :
-  ionice_set false pid ioclass value = CUB w -> ~ (0 <= ioclass < 2 ^ 18).
+(* code of record: no (ioclass, value) reaches undefined behaviour *)
+Lemma ionice_no_ub pid ioclass value : is_ub (ionice_set pid ioclass value) = false.
 Proof.
-  unfold ionice_set.
+  unfold ionice_set, ionice_set_gen.
+  destruct (negb (value =? 0) && ((ioclass =? 3) || (ioclass =? 0))); [reflexivity|].
+  destruct ((value <? 0) || (value >? 7)); [reflexivity|].
+  destruct (true && negb ((0 <=? ioclass) && (ioclass <=? 3))); [reflexivity|].
+  apply c_ioprio_set_no_ub.
+Qed.
+
+(* an ioclass outside 0..3 is rejected by the Python layer *)
+Lemma ionice_rejects pid ioclass value : ~ (0 <= ioclass <= 3) -> ionice_set pid ioclass value = CExc ValueError.
+Proof.
+  intros H. unfold ionice_set, ionice_set_gen.
+  destruct (negb (value =? 0) && ((ioclass =? 3) || (ioclass =? 0))); [reflexivity|].
+  destruct ((value <? 0) || (value >? 7)); [reflexivity|].
+  destruct (Z.leb_spec 0 ioclass); destruct (Z.leb_spec ioclass 3); cbn [andb negb]; try reflexivity. lia.
+Qed.
+
+(* the value handed to ioprio_set(2) is a C int, and for a valid class it is class * 2^13 + data *)
+Lemma to_int_range u : INT_MIN <= to_int u <= INT_MAX.
+Proof.
+  unfold to_int, INT_MIN, INT_MAX. change (2 ^ 32) with 4294967296. change (2 ^ 31) with 2147483648.
+  assert (0 <= u mod 4294967296 < 4294967296) by (apply Z.mod_pos_bound; lia).
+  destruct (Z.ltb_spec (u mod 4294967296) 2147483648); lia.
+Qed.
+
+Lemma ioprio_value_u_range c d : INT_MIN <= ioprio_value_u c d <= INT_MAX.
+Proof. apply to_int_range. Qed.
+
+(* legacy: the only undefined case is an ioclass outside [0, 2^18) *)
+Lemma ionice_legacy_ub pid ioclass value w :
+  ionice_set_legacy pid ioclass value = CUB w -> ~ (0 <= ioclass < 2 ^ 18).
+Proof.
+  unfold ionice_set_legacy, ionice_set_gen.
   destruct (negb (value =? 0) && ((ioclass =? 3) || (ioclass =? 0))); [discriminate|].
   destruct ((value <? 0) || (value >? 7)); [discriminate|]. cbn [andb].
-  unfold c_ioprio_set, cbind. cbn [conv_i].
+  unfold c_ioprio_set_gen, cbind. cbn [conv_i].
   destruct (int_ok pid); [|discriminate]. destruct (int_ok ioclass); [|discriminate].
   destruct (int_ok value); [|discriminate].
   destruct (ioprio_value ioclass value) eqn:E; [discriminate|]. intros _. now apply ioprio_value_none in E.
@@ -148,17 +171,17 @@ Proof.
 Qed.
 
 (* ---------------------------------------------------------------- ethtool speed *)
-Lemma nic_speed_fixed hi lo : exists v, nic_speed true hi lo = Some v /\ 0 <= v <= INT_MAX.
+Lemma nic_speed_total hi lo : exists v, nic_speed hi lo = Some v /\ 0 <= v <= INT_MAX.
 Proof.
-  unfold nic_speed, ethtool_speed. eexists. split; [reflexivity|].
+  unfold nic_speed, nic_speed_gen, ethtool_speed. eexists. split; [reflexivity|].
   set (u := _ mod 2 ^ 32). assert (0 <= u) by (apply Z.mod_pos_bound; reflexivity).
   destruct (u =? 2 ^ 32 - 1); cbn [orb]; [unfold INT_MAX; lia|].
   destruct (Z.gtb_spec u INT_MAX); unfold INT_MAX in *; lia.
 Qed.
 
-Lemma nic_speed_defined hi lo : 0 <= hi < 2 ^ 15 -> exists v, nic_speed false hi lo = Some v /\ 0 <= v <= INT_MAX.
+Lemma nic_speed_legacy_defined hi lo : 0 <= hi < 2 ^ 15 -> exists v, nic_speed_legacy hi lo = Some v /\ 0 <= v <= INT_MAX.
 Proof.
-  intros H. unfold nic_speed, ethtool_speed, shl_int, INT_MAX.
+  intros H. unfold nic_speed_legacy, nic_speed_gen, ethtool_speed, shl_int, INT_MAX.
   change (2 ^ 16) with 65536. change (2 ^ 31 - 1) with 2147483647. change (2 ^ 15) with 32768 in H.
   destruct (Z.leb_spec 0 hi); [|lia]. destruct (Z.leb_spec (hi * 65536) 2147483647); [|lia]. cbn [andb].
   eexists. split; [reflexivity|].
@@ -167,7 +190,7 @@ Proof.
   destruct (Z.gtb_spec u 2147483647); lia.
 Qed.
 
-Lemma nic_speed_refuted : exists hi lo, 0 <= hi < 2 ^ 16 /\ 0 <= lo < 2 ^ 16 /\ nic_speed false hi lo = None.
+Lemma nic_speed_legacy_refuted : exists hi lo, 0 <= hi < 2 ^ 16 /\ 0 <= lo < 2 ^ 16 /\ nic_speed_legacy hi lo = None.
 Proof. exists 65535, 65535. vm_compute. repeat split; discriminate. Qed.
 
 (* ================================================================ buffers *)
@@ -255,10 +278,10 @@ Proof.
   destruct (ifr_name_defined (repeat 255 IFNAMSIZ) name) as [s [-> _]]; [apply repeat_length|reflexivity].
 Qed.
 
-Lemma c_ioprio_set_ub p c d w : c_ioprio_set p c d = CUB w ->
+Lemma c_ioprio_set_legacy_ub p c d w : c_ioprio_set_gen false p c d = CUB w ->
   exists cz, conv_i c = Val cz /\ ~ (0 <= cz < 2 ^ 18).
 Proof.
-  unfold c_ioprio_set, cbind. destruct (conv_i p); try discriminate.
+  unfold c_ioprio_set_gen, cbind. destruct (conv_i p); try discriminate.
   destruct (conv_i c) as [cz| |]; try discriminate. destruct (conv_i d) as [dz| |]; try discriminate.
   destruct (ioprio_value cz dz) eqn:E; [discriminate|]. intros _. exists cz. split; [reflexivity|].
   now apply ioprio_value_none in E.
@@ -267,23 +290,40 @@ Qed.
 Lemma cbind_i_no_ub v k : (forall z, is_ub (k z) = false) -> is_ub (cbind (conv_i v) k) = false.
 Proof. intros H. unfold cbind. destruct (conv_i v); auto. Qed.
 
-(* every entry point, every argument tuple: the only undefined behaviour in the model is the ioprio shift *)
-Lemma entry_ub_only_ioprio ep args w : c_entry ep args = CUB w ->
-  ep = EpIoprioSet /\ exists p c d cz, args = [p; c; d] /\ conv_i c = Val cz /\ ~ (0 <= cz < 2 ^ 18).
+(* every entry point, every argument tuple, either variant: undefined behaviour in the model can only be
+   the legacy ioprio shift *)
+Lemma entry_gen_ub fixed ep args w : c_entry_gen fixed ep args = CUB w ->
+  fixed = false /\ ep = EpIoprioSet /\
+  exists p c d cz, args = [p; c; d] /\ conv_i c = Val cz /\ ~ (0 <= cz < 2 ^ 18).
 Proof.
-  intros H. assert (Hub : is_ub (c_entry ep args) = true) by (rewrite H; reflexivity).
-  destruct ep; destruct args as [|a1 [|a2 [|a3 [|a4 rest]]]]; cbn [c_entry] in *;
+  intros H. assert (Hub : is_ub (c_entry_gen fixed ep args) = true) by (rewrite H; reflexivity).
+  destruct ep; destruct args as [|a1 [|a2 [|a3 [|a4 rest]]]]; cbn [c_entry_gen] in *;
     try discriminate;
     try (rewrite ifreq_call_no_ub in Hub; discriminate);
     try (rewrite cbind_i_no_ub in Hub; [discriminate|intros; reflexivity]).
   all: try (destruct (check_pid_range a1) as [[]| |]; discriminate).
-  - (* ioprio_set *) split; [reflexivity|]. apply c_ioprio_set_ub in H as [cz [Hc Hr]].
+  - (* ioprio_set *) destruct fixed; [rewrite c_ioprio_set_no_ub in Hub; discriminate|].
+    split; [reflexivity|]. split; [reflexivity|]. apply c_ioprio_set_legacy_ub in H as [cz [Hc Hr]].
     exists a1, a2, a3, cz. auto.
   - (* affinity_set *) unfold c_affinity_set, cbind in H. destruct (conv_i a1); try discriminate.
     destruct (as_sequence a2); try discriminate. destruct (aff_items l []); discriminate.
   - (* disk_partitions *) unfold cbind in H. destruct (conv_s a1); discriminate.
   - (* setpriority *) unfold cbind in H. destruct (conv_i a1); try discriminate. destruct (conv_i a2); discriminate.
 Qed.
+
+(* code of record: no entry point, no argument tuple reaches undefined behaviour *)
+Lemma entry_no_ub ep args : is_ub (c_entry ep args) = false.
+Proof.
+  destruct (c_entry ep args) eqn:E; try reflexivity.
+  unfold c_entry in E. apply entry_gen_ub in E as [F _]. discriminate.
+Qed.
+
+Lemma entry_legacy_ub ep args w : c_entry_legacy ep args = CUB w ->
+  ep = EpIoprioSet /\ exists p c d cz, args = [p; c; d] /\ conv_i c = Val cz /\ ~ (0 <= cz < 2 ^ 18).
+Proof. intros H. apply entry_gen_ub in H as [_ H]. exact H. Qed.
+
+Lemma entry_legacy_refuted : c_entry_legacy EpIoprioSet [PInt 0; PInt (-1); PInt 0] = CUB "shift".
+Proof. vm_compute. reflexivity. Qed.
 
 (* ================================================================ users() *)
 Lemma firstn_len_app {A} (f x : list A) : firstn (length f) (f ++ x) = f.
@@ -435,9 +475,9 @@ Qed.
 (* every file of well-formed login records *)
 Lemma users_exact fixed rs :
   forallb wf_urec rs = true -> (fixed = true \/ forallb terminated rs = true) ->
-  users fixed (k_utmp_file rs) = MOk (spec_users rs).
+  users_gen fixed (k_utmp_file rs) = MOk (spec_users rs).
 Proof.
-  intros Hwf Hc. unfold users, k_utmp_file.
+  intros Hwf Hc. unfold users_gen, k_utmp_file.
   assert (Hall : Forall (fun r => length r = UTMP_SIZE) (map k_utmp rs)).
   { apply Forall_forall. intros x Hx. apply in_map_iff in Hx as [r [<- Hr]].
     apply k_utmp_length. rewrite forallb_forall in Hwf. auto. }
@@ -461,9 +501,9 @@ Definition rec_plain : urec :=
      k_usec := [1; 2; 3; 4]; k_addr := repeat 0 16; k_unused := repeat 0 20 |}.
 
 (* code as it is: a user name filling its 32 bytes comes back with the host appended *)
-Lemma users_fullwidth_refuted : exists rs,
+Lemma users_legacy_fullwidth_refuted : exists rs,
   forallb wf_urec rs = true /\
-  exists rows, users false (k_utmp_file rs) = MOk rows /\ rows <> spec_users rs /\
+  exists rows, users_legacy (k_utmp_file rs) = MOk rows /\ rows <> spec_users rs /\
                map u_user rows = [repeat 85 32 ++ bs "example.org"].
 Proof.
   exists [rec_full]. split; [vm_compute; reflexivity|].
@@ -472,8 +512,8 @@ Proof.
 Qed.
 
 (* ... and a record without any NUL behind ut_line makes the read leave the record *)
-Lemma users_oob_refuted : exists rs,
-  forallb wf_urec rs = true /\ users false (k_utmp_file rs) = MOutOfBounds.
+Lemma users_legacy_oob_refuted : exists rs,
+  forallb wf_urec rs = true /\ users_legacy (k_utmp_file rs) = MOutOfBounds.
 Proof. exists [rec_unterminated]. split; vm_compute; reflexivity. Qed.
 
 Example users_exact_example :
@@ -509,13 +549,13 @@ Proof.
 Qed.
 
 (* ================================================================ statements as used in Properties/C17.v *)
-Lemma users_decode_fixed rs :
-  forallb wf_urec rs = true -> users true (k_utmp_file rs) = MOk (spec_users rs).
+Lemma users_decode rs :
+  forallb wf_urec rs = true -> users (k_utmp_file rs) = MOk (spec_users rs).
 Proof. intros H. apply users_exact; auto. Qed.
 
-Lemma users_decode_asis rs :
+Lemma users_legacy_decode rs :
   forallb wf_urec rs = true -> forallb terminated rs = true ->
-  users false (k_utmp_file rs) = MOk (spec_users rs).
+  users_legacy (k_utmp_file rs) = MOk (spec_users rs).
 Proof. intros H T. apply users_exact; auto. Qed.
 
 Lemma strncpy_safe src n : (1 <= n)%nat ->
@@ -537,3 +577,15 @@ Qed.
 
 Lemma affinity_readout bits : aff_scan bits 0 (popcount bits) = Some (set_bits 0 bits).
 Proof. apply aff_scan_exact. Qed.
+
+(* what ionice() hands to ioprio_set(2) for every (ioclass, value) the Python layer lets through:
+   class * 2^13 + data (the domain is finite: 4 classes x 8 values) *)
+Lemma ioprio_value_u_valid c d : 0 <= c <= 3 -> 0 <= d <= 7 -> ioprio_value_u c d = c * 8192 + d.
+Proof.
+  intros Hc Hd.
+  assert (E : forallb (fun c => forallb (fun d => ioprio_value_u c d =? c * 8192 + d) [0;1;2;3;4;5;6;7]) [0;1;2;3] = true)
+    by (vm_compute; reflexivity).
+  rewrite forallb_forall in E. assert (Ic : In c [0;1;2;3]) by (cbn; lia).
+  specialize (E c Ic). rewrite forallb_forall in E. assert (Id : In d [0;1;2;3;4;5;6;7]) by (cbn; lia).
+  apply Z.eqb_eq. exact (E d Id).
+Qed.
